@@ -1,6 +1,7 @@
 // C09 — rotation, automorphism and (X^p - 1) are the ring maps for every p.
 // Oracle: index arithmetic with true Euclidean remainders in 128-bit integers (no masks).
 #include "lib.h"
+#include "ops.h"
 
 static inline uint64_t emod(i128 x, uint64_t m) {
   i128 r = x % (i128)m;
@@ -439,10 +440,32 @@ static void cross_dimension_case(unsigned rep) {
   case_end(1);
 }
 
+// the in-place and out-of-place maps run by several threads at once on private vectors (shared module): each call
+// must still return what it returns alone (a hidden shared scratch buffer would break the ring map under load)
+static void concurrent_maps_case(uint64_t N, int T, unsigned rep) {
+  if (!case_begin("rotate/automorphism|concurrent threads", "N=%" PRIu64 " threads=%d rep=%u", N, T, rep)) return;
+  static const char* const NAMES[] = {"vec_znx_rotate(res==a)", "vec_znx_automorphism(res==a)", "vec_znx_big_rotate(res==a)", "vec_znx_big_automorphism(res==a)", "vec_znx_rotate", "vec_znx_automorphism",
+                                      "vec_znx_big_rotate", "vec_znx_big_automorphism", "znx_rotate_inplace_i64", "znx_automorphism_inplace_i64", "rnx_rotate_inplace_f64", "rnx_automorphism_inplace_f64", "rnx_mul_xp_minus_one_inplace"};
+  env_t* e = env_create(N, 1);
+  char msg[240] = "";
+  uint64_t calls = 0;
+  uint64_t bad = ops_concurrent_check(NAMES, (int)ARRAY_LEN(NAMES), e, T, N <= 1024 ? 60 : 10, G.seed * 131 + rep, msg, sizeof msg, &calls);
+  if (bad) viol("differential", "%s (%" PRIu64 " differing calls)", msg, bad);
+  env_destroy(e);
+  cnt("concurrent_map_calls", calls);
+  sample("%d threads, %" PRIu64 " calls compared with their sequential re-run", T, calls);
+  case_end(1);
+}
+
 void run_C09(void) {
   const int th = G.thorough;
   const uint64_t exh_max = th ? 65536 : 8192;
   for (unsigned rep = 0; rep < (th ? 400u : 32u); rep++) cross_dimension_case(rep);
+  {
+    static const uint64_t CN[] = {8, 64, 256, 2048, 8192};
+    for (size_t i = 0; i < ARRAY_LEN(CN); i++)
+      for (unsigned rep = 0; rep < (th ? 10u : 2u); rep++) concurrent_maps_case(CN[i], rep & 1 ? 16 : 4, rep);
+  }
   for (uint64_t N = 1; N <= 65536; N <<= 1) {
     if (N <= exh_max)
       exhaustive_kernels(N, N <= (th ? 4096 : 1024));
